@@ -44,6 +44,7 @@ static void kindsScenario(bsx::Ctx& c, const char* prop, const std::vector<std::
 		if (!k) continue;
 		if (k == 1 + static_cast<int>(offs.size())) { absent[i] = true; off[i] = true; offDesc += std::string(keys[i]) + "=absent "; offCls += std::string(keys[i]) + ":absent,"; continue; }
 		const auto& of = offs[static_cast<size_t>(k - 1)];
+		if (of.second.k == Val::Str && of.second.ext_type == 1 && (arch != tl::Xml || of.first == "cdata_num")) continue;   // numeric CDATA is well-typed for most scalar kinds
 		if (of.second.k == doc.m[i].second.k && of.first != "bigint" && of.first != "str" && of.first != "str8") continue;
 		if (arch != tl::MsgPack && (of.second.k == Val::Bin || of.second.k == Val::Ts || of.second.k == Val::Ext)) continue;
 		if (arch == tl::Xml && of.second.k == Val::Nil) continue;
